@@ -166,6 +166,71 @@ thread_local! {
     };
 }
 
+thread_local! {
+    /// objects whose PREVIOUS read was refused half-way (in the first item's data, in a later
+    /// item, in the list of deleted keys, at a bad size): whatever the refused input left behind
+    /// must not show in the next result
+    static FAILED_DELTAS: Vec<Delta> = {
+        // delta ints: deleted, updated, 0, [deleted keys], then per item: type, id, [size], data...
+        let inputs: Vec<Vec<i32>> = vec![
+            vec![0, 1, 0, 5, 1, 3, 7, 8],                  // ends inside the data of the first item
+            vec![0, 2, 0, 5, 1, 2, 7, 8, 5, 2, 4, 9],      // ends inside the second item
+            vec![2, 1, 0, 0x0005_0001],                    // ends inside the deleted keys
+            vec![0, 1, 0, 5, 1, -1, 7],                    // negative size
+            vec![0, 1, 0, 5, 1, 70000, 7, 8, 9],           // size beyond the input
+            vec![1, 2, 0, 0x0005_0009, 6, 1, 1, 42, 6, 1, 1], // a complete item, then a truncated one
+        ];
+        let mut out = Vec::new();
+        for i in &inputs {
+            let mut d = DIRTY_DELTA.with(|d| d.clone());
+            let mut w: Vec<Warning> = Vec::new();
+            let r = d.read_from_ints(&mut w, obj_size, &mut IntUnpacker::new(i));
+            assert!(r.is_err(), "harness: {:?} was meant to be refused", i);
+            out.push(d.clone());
+            let mut d = Delta::new();
+            let _ = d.read(&mut w, obj_size, &mut Unpacker::new(&ints_to_bytes(i)));
+            out.push(d);
+        }
+        out
+    };
+    static FAILED_SNAPS: Vec<Snap> = {
+        // snapshot ints: data size, num items, offsets..., items (key, data...)
+        let inputs: Vec<Vec<i32>> = vec![
+            vec![16, 2, 0, 8, 0x0005_0001, 7, 0x0005_0002],          // ends inside the second item
+            vec![16, 2, 0, 8, 0x0005_0001, 7, 0x0005_0001, 8],       // the same key twice
+            vec![16, 2, 0, 6, 0x0005_0001, 7, 0x0005_0002, 8],       // unaligned offset
+            vec![24, 3, 0, 8, 8, 0x0005_0001, 7, 0x0005_0002, 8, 0x0005_0003, 9], // offsets not increasing
+        ];
+        let mut out = Vec::new();
+        for i in &inputs {
+            let mut s = DIRTY_SNAP.with(|d| d.clone());
+            let mut w: Vec<Warning> = Vec::new();
+            let r = s.read_from_ints(&mut w, i);
+            assert!(r.is_err(), "harness: {:?} was meant to be refused", i);
+            out.push(s);
+        }
+        // an object whose previous read_with_delta was refused at the second item (size mismatch)
+        let v = valid_snapshots();
+        let base = &v[v.len() - 1];
+        let first: Vec<(i32, i32, usize)> = base.items().take(2).map(|i| (match i.type_id { libtw2_gamenet_common::snap_obj::TypeId::Ordinal(t) => t as i32, _ => -1 }, i.id as i32, i.data.len())).collect();
+        if first.len() == 2 && first.iter().all(|f| f.0 >= 0) {
+            let mut ints = vec![0, 2, 0, first[0].0, first[0].1, first[0].2 as i32];
+            ints.extend(std::iter::repeat(1).take(first[0].2));
+            ints.extend([first[1].0, first[1].1, first[1].2 as i32 + 1]);
+            ints.extend(std::iter::repeat(1).take(first[1].2 + 1));
+            let mut d = Delta::new();
+            let mut w: Vec<Warning> = Vec::new();
+            if d.read_from_ints(&mut w, |_| None, &mut IntUnpacker::new(&ints)).is_ok() {
+                let mut s = DIRTY_SNAP.with(|d| d.clone());
+                if s.read_with_delta(&mut w, base, &d).is_err() {
+                    out.push(s);
+                }
+            }
+        }
+        out
+    };
+}
+
 fn delta_ints(d: &Delta) -> Result<Vec<i32>, String> {
     let mut out = vec![0i32; 20000];
     let n = d.write_to_ints(obj_size, &mut out).map_err(|_| "accepted delta does not fit 20000 ints".to_string())?.len();
@@ -193,10 +258,26 @@ fn try_snapshot_ints(ints: &[i32], pool: &Pool) -> Result<&'static str, String> 
     if r.is_ok() != r2.is_ok() {
         return Err(format!("int form {:?} but byte form {:?}", r, r2));
     }
+    // ... and into objects whose previous read was refused half-way
+    let failed: Vec<Snap> = FAILED_SNAPS.with(|f| f.clone());
+    let mut after_failure: Vec<Snap> = Vec::new();
+    for (k, mut sf) in failed.into_iter().enumerate() {
+        let rf = if k % 2 == 0 { sf.read_from_ints(&mut w, ints) } else { sf.read(&mut w, &mut ib, &bytes) };
+        if rf.is_ok() != r.is_ok() {
+            return Err(format!("a fresh object answers {:?}, an object whose previous read was refused answers {:?}", r, rf));
+        }
+        after_failure.push(sf);
+    }
     match r {
         Err(_) => Ok("snap:rejected"),
         Ok(()) => {
             let out = accepted_snapshot(&s, "snapshot from ints")?;
+            for sf in &after_failure {
+                if accepted_snapshot(sf, "snapshot read into an object whose previous read was refused")? != out {
+                    return Err("the same input read into an object whose previous read was refused half-way gives a different snapshot".into());
+                }
+                recycle_followup(sf)?;
+            }
             // the copy that went into a used object (it held two UUID types) must be the same
             // snapshot and pass the same checks, incl. enumeration and the follow-up recycle
             let out2 = accepted_snapshot(&s2, "snapshot from bytes, read into a used object")?;
@@ -232,9 +313,23 @@ fn try_delta_ints(ints: &[i32], dpool: &Mutex<BTreeMap<Vec<i32>, ()>>) -> Result
     if r.is_ok() != r2.is_ok() {
         return Err(format!("delta int form {:?} but byte form {:?}", r, r2));
     }
+    let failed: Vec<Delta> = FAILED_DELTAS.with(|f| f.clone());
+    let mut after_failure: Vec<Delta> = Vec::new();
+    for (k, mut df) in failed.into_iter().enumerate() {
+        let rf = if k % 2 == 0 { df.read_from_ints(&mut w, obj_size, &mut IntUnpacker::new(ints)) } else { df.read(&mut w, obj_size, &mut Unpacker::new(&bytes)) };
+        if rf.is_ok() != r.is_ok() {
+            return Err(format!("a fresh Delta answers {:?}, a Delta whose previous read was refused answers {:?}", r, rf));
+        }
+        after_failure.push(df);
+    }
     match r {
         Err(_) => Ok("delta:rejected"),
         Ok(()) => {
+            for df in &after_failure {
+                if delta_ints(df)? != delta_ints(&d)? {
+                    return Err("the same input read into a Delta whose previous read was refused half-way gives a different delta".into());
+                }
+            }
             if delta_ints(&d)? != delta_ints(&d2)? {
                 return Err("the same input read into an object that held another delta gives a different delta".into());
             }
